@@ -40,6 +40,15 @@ def determinism(argv):
     return 1 if bad else 0
 
 
+EQUIV = set()
+try:
+    for line in open(os.path.join(HERE, "mutants", "EQUIVALENT.md")):
+        if line[:1] == "c" and "_" in line.split(" ")[0]:
+            EQUIV.add(line.split(" ")[0])
+except OSError:
+    pass
+
+
 def mutants(argv):
     want = [a.upper() for a in argv]
     bad = 0
@@ -51,11 +60,17 @@ def mutants(argv):
             continue
         cp = subprocess.run([os.path.join(HERE, "tools", "with_mutant"), f, pid, "--tier", "quick"],
                             capture_output=True, text=True, timeout=3600)
+        if "PATCH-FAILED" in cp.stdout:
+            print("%-34s PATCH-FAILED (mutant diff no longer applies to /repo)" % name)
+            rows.append((name, False, True, []))
+            continue
         hit = "VIOLATION property=%s" % pid in cp.stdout
         harness = "HARNESS-ERROR" in cp.stdout
         oracles = sorted({l.split("oracle=")[1].split(" ")[0] for l in cp.stdout.splitlines() if l.startswith("violation:")})
         rows.append((name, hit, harness, oracles))
-        print("%-34s %s %s" % (name, "HARNESS-ERROR" if harness else ("caught" if hit else "MISSED"), ",".join(oracles)[:120]))
+        equiv = name in EQUIV
+        print("%-34s %s %s" % (name, "HARNESS-ERROR" if harness else ("caught" if hit else (
+            "equivalent (documented)" if equiv else "MISSED")), ",".join(oracles)[:120]))
         sys.stdout.flush()
     print("mutants: %d caught, %d missed, %d harness errors of %d" % (
         sum(1 for r in rows if r[1] and not r[2]), sum(1 for r in rows if not r[1] and not r[2]),
